@@ -379,6 +379,25 @@ bus_driver_send_service_acquired (DBusConnection *connection,
     }
 }
 
+#ifdef DBUS_VERIF_SIM
+/* Verification hook (off by default): lets an in-process simulation harness
+ * reset the function-static unique-name counters between simulated runs, or
+ * start a run just below the minor-number wrap. */
+static int _bus_verif_unique_pending = 0;
+static int _bus_verif_unique_major = 0;
+static int _bus_verif_unique_minor = 0;
+
+void _bus_verif_set_unique_name_counter (int major, int minor);
+
+void
+_bus_verif_set_unique_name_counter (int major, int minor)
+{
+  _bus_verif_unique_pending = 1;
+  _bus_verif_unique_major = major;
+  _bus_verif_unique_minor = minor;
+}
+#endif
+
 static dbus_bool_t
 create_unique_client_name (BusRegistry *registry,
                            DBusString  *str)
@@ -393,6 +412,15 @@ create_unique_client_name (BusRegistry *registry,
   static int next_major_number = 0;
   static int next_minor_number = 0;
   int len;
+
+#ifdef DBUS_VERIF_SIM
+  if (_bus_verif_unique_pending)
+    {
+      next_major_number = _bus_verif_unique_major;
+      next_minor_number = _bus_verif_unique_minor;
+      _bus_verif_unique_pending = 0;
+    }
+#endif
 
   len = _dbus_string_get_length (str);
 
